@@ -136,6 +136,9 @@ func (c *SumCopyCommand) sumCopyItem(item string, tow io.Writer) error {
 		return err
 	})
 	if err := eg.Wait(); err != nil {
+		if destDB != nil {
+			destDB.Close()
+		}
 		return err
 	}
 	defer destDB.Close()
